@@ -124,7 +124,7 @@ def transition(r, k, acc0, flag, path, rev=False):
     return acc2.copy()
 
 
-def explore(r, k, G, max_changes, cap):
+def explore(r, k, G, max_changes, cap, dmax=None, first=None):
     """Search over call sequences: first the four pure flag sequences to their end (never capped),
     then all sequences with at most max_changes flag changes; transitions are cached per
     (state, flag) and every distinct transition is one real call with the invariant evaluated."""
@@ -136,7 +136,7 @@ def explore(r, k, G, max_changes, cap):
 
     def search(mc, limit):
         seen = set()
-        stack = [(acc0.tobytes(), fi, 0, 0) for fi in range(NF)]
+        stack = [(acc0.tobytes(), fi, 0, 0) for fi in (range(NF) if first is None else first)]
         while stack:
             sb, fi, ch, depth = stack.pop()
             if (sb, fi, ch) in seen:
@@ -152,7 +152,7 @@ def explore(r, k, G, max_changes, cap):
                 cache[key] = None if nxt is None else nxt.tobytes()
                 ntrans[0] += 1
             nb = cache[key]
-            if nb is None:
+            if nb is None or (dmax is not None and depth + 1 >= dmax):
                 r.maxi('longest_sequence', depth)
                 continue
             states.add(nb)
@@ -180,10 +180,10 @@ def check_case(r, kind, case):
 
 def _w(chunk):
     r = core.Res()
-    for k, G, mc, cap in chunk:
-        ns = explore(r, k, G, mc, cap)
+    for k, G, mc, cap, *rest in chunk:
+        ns = explore(r, k, G, mc, cap, *rest)
         r.ctr['initial_graphs_k%d' % k] += 1
-    k, G, mc, cap = chunk[-1]
+    k, G, mc, cap = chunk[-1][:4]
     r.sample(_LAST.get('case') or {'k': k, 'initial_arcs': RP.garcs(G)[:40]}, 1)
     return r
 
@@ -210,10 +210,16 @@ def run(ctx):
         items.append((k, G, 2 if k == 2 else 0, (1500 if q else 10000) if k == 2 else 0))
     items.append((2, [list(x) for x in __import__('mc.coder', fromlist=['LITERAL']).LITERAL], 2, 400 if q else 3000))
     items.sort(key=lambda x: -len(RP.garcs(x[1])) * 4 ** x[0])
+    # orders 4 (5): scores pass 255 there; pure flag sequences of bounded depth, one job per first flag
+    big = [(4, O.from_mask(set(range(256)), 4))] + [(k_, G_) for k_, G_, t_ in RP.filter_graphs((4,) if q else (4, 5), ts=(2,), small=True)][:(3 if q else 8)]
+    if not q:
+        big.append((5, O.from_mask(set(range(1024)), 5)))
+    deep = [(k_, G_, 0, 0, (5 if q else 12) if k_ == 4 else 4, [fi]) for k_, G_ in big for fi in range(NF)]
+    items = deep + items
     ctx.log('initial graphs', len(items))
     ctx.pmap(_w, [[it] for it in items])
     ctx.exhaustive = not ctx.res.caps
-    ctx.bounds = {'initial_graphs': len(items), 'order2': 'generated graphs with <= %d vertices (first %d per (size,t) stratum), filter graphs, the GC-balanced literal' % ((8, 30) if q else (10, 300)),
+    ctx.bounds = {'initial_graphs': len(items) - len(deep) + len(big), 'order4': '%d graphs of order 4%s (complete and filter graphs): the 8 pure flag sequences to depth %d' % (len(big), '' if q else '-5', 5 if q else 12), 'order2': 'generated graphs with <= %d vertices (first %d per (size,t) stratum), filter graphs, the GC-balanced literal' % ((8, 30) if q else (10, 300)),
                   'order3': 'filter graphs, pure flag sequences', 'flag_changes': 'order 2: <= 2; order 3: 0',
                   'sequences': 'to the first raising call'}
     ctx.rule = ('reachable-state search: state = accessor bytes (latter map is a function of it once the invariant holds), transition '
